@@ -220,6 +220,16 @@ def run_config(sh, fa, case, cfg, scratch, tag):
 
     def read_all():
         rd = fa.reader(fin)
+        if len(data) % 3 == 0:
+            # the records pulled one at a time with next() (a None record is a record like any other)
+            got = []
+            while True:
+                try:
+                    got.append(next(rd))
+                except StopIteration:
+                    break
+            sh.count("files_read_with_next")
+            return rd, got
         return rd, list(rd)
 
     st, res = guard(read_all)
